@@ -67,6 +67,9 @@ Proof.
   rewrite firstn_all2 by lia. cbn. apply app_nil_r.
 Qed.
 
+Lemma sl_all X b : blen X = b -> sl X 0 b = Ok X.
+Proof. intros H. pose proof (sl_here X [] b H) as Hs. rewrite app_nil_r in Hs. exact Hs. Qed.
+
 Lemma uat_here' w w' x Y : w = N.of_nat w' -> x < 256 ^ w -> uat w (be_bytes w' x ++ Y) 0 = Ok x.
 Proof. intros -> H. apply uat_here, H. Qed.
 
@@ -115,6 +118,7 @@ Ltac seg_step :=
     end
   | |- context [from ?Y 0] => rewrite (from_zero Y)
   | |- context [sl (?X ++ ?Y) ?a ?b] =>
+    lazymatch b with N0 => idtac | N.pos _ => idtac end;
     let k := klen X in let k' := eval vm_compute in k in
     let lt := eval vm_compute in (N.ltb a k') in
     match lt with
